@@ -276,7 +276,7 @@ def gen_dyn_case(rng):
 
 def gen_eqw_case(rng):
     return dict(kind='eqw', scale=rng.choice([1.0, 2.0, 0.5, 0.0, 0, 1, rng.uniform(0.1, 3)]),
-                weights=[[a, rng.choice([rng.uniform(-1, 1), rng.uniform(-1, 1), 1, 0, -1, 2, 0.0, 1.0])] for a in rng.sample(ALL, rng.randint(1, 7))])
+                weights=[[a, rng.choice([rng.uniform(-1, 1), rng.uniform(-1, 1), 1, 0, -1, 2, 0.0, 1.0, float('nan')])] for a in rng.sample(ALL, rng.randint(1, 7))])
 
 
 # ---------------------------------------------------------------------------------------------
@@ -301,6 +301,8 @@ def csv_handler(prices):
                 if dd.weekday() > 4:
                     continue
                 if p is None:
+                    if len(a) % 2 == 0 and k <= 0:
+                        continue                      # the file simply starts after the query day
                     cell = '' if k <= 0 else '77.0'
                 else:
                     cell = repr(float(p))
